@@ -23,7 +23,17 @@ import (
 	"time"
 )
 
-const verifDir = "/verif"
+// verifDir is the root of the verification tree this binary belongs to (<root>/bin/verifctl),
+// so that a snapshot of /verif is self-contained; falls back to /verif.
+var verifDir = func() string {
+	if exe, err := os.Executable(); err == nil {
+		root := filepath.Dir(filepath.Dir(exe))
+		if _, err := os.Stat(filepath.Join(root, "zzsim", "core")); err == nil {
+			return root
+		}
+	}
+	return "/verif"
+}()
 
 func repoDir() string {
 	if r := os.Getenv("VERIF_REPO"); r != "" {
